@@ -159,7 +159,7 @@ package config
 //@   requires c != nil
 //@   modifies all
 //@   callpre run @every-round-opens-a-stream-with-the-same-context arg0 == c && arg1 == ctx
-//@   ensures @gives-up-only-when-the-context-is-done waitedfor(ctxdone(ctx))
+//@   proves @gives-up-only-when-the-context-is-done waitedfor(ctxdone(ctx))
 
 //@ func (*svcDiscoveryClient).run
 //@   prop C16
@@ -169,3 +169,34 @@ package config
 //@   assume @before:resubscribe c.subscribed != nil
 //@   callpre loopSend @changes-are-sent-only-after-the-resubscription arg0 == c
 //@   assume @before:loopSend c.subCh != nil && c.unsubCh != nil && c.subCh != c.unsubCh && stream != nil
+
+// ---- C16: the three discovery streams start on their own; the dependency hook forwards every change to both -----
+
+//@ func (*discoveryClient).StreamSvcConfigs
+//@   prop C16
+//@   onlycalls SetHook Run Debugf Infof Warnf Errorf Printf
+//@   requires c != nil && c.svcConfig != nil && c.svcConfig.svcDiscoveryClient != nil
+//@   modifies all
+//@   callpre Run @the-stream-starts-without-waiting-for-anything-else arg1 == ctx && forall x loc :: !waitedfor(x)
+
+//@ func (*discoveryClient).StreamSvcEndpoints
+//@   prop C16
+//@   onlycalls SetHook Run Debugf Infof Warnf Errorf Printf
+//@   requires c != nil && c.svcEndpoint != nil && c.svcEndpoint.svcDiscoveryClient != nil
+//@   modifies all
+//@   callpre Run @the-stream-starts-without-waiting-for-anything-else arg1 == ctx && forall x loc :: !waitedfor(x)
+
+//@ func (*discoveryClient).StreamDependencies
+//@   prop C16
+//@   onlycalls SetHook Run Debugf Infof Warnf Errorf Printf
+//@   requires c != nil
+//@   modifies all
+//@   callpre Run @the-stream-starts-without-waiting-for-anything-else arg1 == ctx && forall x loc :: !waitedfor(x)
+
+//@ func (*discoveryClient).StreamDependencies$1
+//@   prop C16
+//@   modifies all
+//@   loop 0 assume deref(c) != nil && deref(c).svcConfig != nil && deref(c).svcEndpoint != nil && deref(c).svcConfig.svcDiscoveryClient != nil && deref(c).svcEndpoint.svcDiscoveryClient != nil && deref(c).svcConfig.svcDiscoveryClient.subscribed != nil && deref(c).svcConfig.svcDiscoveryClient.subCh != nil && deref(c).svcEndpoint.svcDiscoveryClient.subscribed != nil && deref(c).svcEndpoint.svcDiscoveryClient.subCh != nil && (forall k int :: 0 <= k && k < len(added) ==> added[k] != nil)
+//@   loop 1 assume deref(c) != nil && deref(c).svcConfig != nil && deref(c).svcEndpoint != nil && deref(c).svcConfig.svcDiscoveryClient != nil && deref(c).svcEndpoint.svcDiscoveryClient != nil && deref(c).svcConfig.svcDiscoveryClient.subscribed != nil && deref(c).svcConfig.svcDiscoveryClient.unsubCh != nil && deref(c).svcEndpoint.svcDiscoveryClient.subscribed != nil && deref(c).svcEndpoint.svcDiscoveryClient.unsubCh != nil && (forall k int :: 0 <= k && k < len(removed) ==> removed[k] != nil)
+//@   callpre Subscribe @every-added-dependency-is-subscribed-on-both-streams rangeindex + 1 < len(added) && arg1 == added[rangeindex + 1].Name
+//@   callpre Unsubscribe @every-removed-dependency-is-unsubscribed-on-both-streams rangeindex + 1 < len(removed) && arg1 == removed[rangeindex + 1].Name
